@@ -212,8 +212,8 @@ def gen_pileup(r):
             a = g["stop"] + 1 + r.randint(0, w + 5)
         else:
             a = r.randint(g["start"], g["stop"])
-        a = max(1, a)
-        b = min(MAXC, a + r.choice([0, 1, 10, w, 3 * w + 7]))
+        a = min(MAXC, max(1, a))
+        b = max(a, min(MAXC, a + r.choice([0, 1, 10, w, 3 * w + 7])))
         c["tes"].append({"chrom": g["chrom"], "start": a, "stop": b, "order": o, "superfam": sf, "strand": "+"})
     c["features"] = sorted(set(c["features"]) | {"pileup"})
     r.shuffle(c["tes"])
